@@ -491,15 +491,16 @@ class JModel:
 
 class Env:
     """name -> symbolic value (s) and abstract type (t)."""
-    __slots__ = ("s", "t", "f")
+    __slots__ = ("s", "t", "f", "n")
 
-    def __init__(self, s=None, t=None, f=None):
+    def __init__(self, s=None, t=None, f=None, n=None):
         self.s = dict(s or {})
         self.t = dict(t or {})
         self.f = dict(f or {})
+        self.n = dict(n or {})       # {% set x = [literal list] %}: the expression node, for loops over it
 
     def copy(self):
-        return Env(self.s, self.t, self.f)
+        return Env(self.s, self.t, self.f, self.n)
 
 
 class _Walker:
@@ -553,6 +554,28 @@ class _Walker:
                     self.emit(x, tname, env, conds, loops, macros, st, items, idx)
         elif isinstance(n, N.If):
             self._walk_if(n.test, n.body, list(n.elif_), n.else_, tname, env, conds, loops, macros, st)
+        elif isinstance(n, N.For) and self._literal_rows(n.iter, env) is not None:
+            # a loop over a literal table, `{% for title, coll in [("Functions", module.functions), ...] %}` (possibly held in a
+            # {% set %} variable): unrolled, each target bound to the row's expression; a loop filter is a condition
+            rows = self._literal_rows(n.iter, env)
+            targets = [n.target] if isinstance(n.target, N.Name) else list(getattr(n.target, "items", []))
+            for row in rows:
+                e2 = env.copy()
+                parts = list(row.items) if isinstance(row, (N.Tuple, N.List)) and len(targets) > 1 else [row]
+                if len(parts) != len(targets):
+                    continue
+                for tg, part in zip(targets, parts):
+                    if isinstance(tg, N.Name):
+                        e2.s[tg.name] = sym(part, env.s)
+                        e2.t[tg.name] = self.etype(part, env)
+                        e2.f[tg.name] = self.jm.flags(part, env.f)
+                        e2.n.pop(tg.name, None)
+                e2.s["loop"] = "loop"
+                if n.test is not None:
+                    t_ = sym(n.test, e2.s)
+                    self.walk_nodes(n.body, tname, e2, conds + [(t_, True, n.test, dict(e2.s))], loops, macros, st)
+                else:
+                    self.walk_nodes(n.body, tname, e2, conds, loops, macros, st)
         elif isinstance(n, N.For):
             it = sym(n.iter, env.s)
             ityp = self.etype(n.iter, env)
@@ -587,6 +610,10 @@ class _Walker:
             self.walk_nodes(body, origin, env, conds, loops, macros, st)
         elif isinstance(n, N.Assign):
             if isinstance(n.target, N.Name):
+                if isinstance(n.node, (N.List, N.Tuple)):
+                    env.n[n.target.name] = n.node
+                else:
+                    env.n.pop(n.target.name, None)
                 v, t = sym(n.node, env.s), self.etype(n.node, env)
                 env.f[n.target.name] = self.jm.flags(n.node, env.f)
                 env.s[n.target.name] = v
@@ -616,6 +643,14 @@ class _Walker:
             raise AnalysisError(f"{tname}:{getattr(n, 'lineno', 0)}: template statement "
                                 f"{type(n).__name__} not understood")
 
+    def _literal_rows(self, it, env):
+        """the element nodes of a loop iterable that is a literal list/tuple, directly or through a {% set %} variable"""
+        if isinstance(it, N.Name) and it.name in env.n:
+            it = env.n[it.name]
+        if isinstance(it, (N.List, N.Tuple)) and 0 < len(it.items) <= 12:
+            return list(it.items)
+        return None
+
     def _walk_if(self, test, body, elifs, else_, tname, env, conds, loops, macros, st):
         t = sym(test, env.s)
         self.scan_calls(test, tname, env, conds, loops, macros, st, in_test=True)
@@ -625,6 +660,8 @@ class _Walker:
             e1.t[test.node.name] = "S"   # `x is string`: a plain name, not an entity
         self.walk_nodes(body, tname, e1, conds + [(t, True, test, dict(env.s))], loops, macros, st)
         e2 = env.copy()
+        if isinstance(test, N.Not) and isinstance(test.node, N.Test) and test.node.name == "string" and isinstance(test.node.node, N.Name):
+            e2.t[test.node.node.name] = "S"   # `x is not string` ... else: a plain name
         neg = conds + [(t, False, test, dict(env.s))]
         if elifs:
             first = elifs[0]
